@@ -154,7 +154,7 @@ func (f Wildcard) removeOne(value any) (out any, changed bool) {
 	return
 }
 
-func (f Wildcard) locate(pp Expr, data any, rest Expr, max int) (locs []Expr) {
+func (f Wildcard) locate(pp Expr, data any, rest Expr, max int, root any) (locs []Expr) {
 	switch td := data.(type) {
 	case map[string]any:
 		if len(rest) == 0 { // last one
@@ -168,7 +168,7 @@ func (f Wildcard) locate(pp Expr, data any, rest Expr, max int) (locs []Expr) {
 			cp := append(pp, nil) // place holder
 			for k, v := range td {
 				cp[len(pp)] = Child(k)
-				locs = locateContinueFrag(locs, cp, v, rest, max)
+				locs = locateContinueFrag(locs, cp, v, rest, max, root)
 				if 0 < max && max <= len(locs) {
 					break
 				}
@@ -186,7 +186,7 @@ func (f Wildcard) locate(pp Expr, data any, rest Expr, max int) (locs []Expr) {
 			cp := append(pp, nil) // place holder
 			for i, v := range td {
 				cp[len(pp)] = Nth(i)
-				locs = locateContinueFrag(locs, cp, v, rest, max)
+				locs = locateContinueFrag(locs, cp, v, rest, max, root)
 				if 0 < max && max <= len(locs) {
 					break
 				}
@@ -204,7 +204,7 @@ func (f Wildcard) locate(pp Expr, data any, rest Expr, max int) (locs []Expr) {
 			cp := append(pp, nil) // place holder
 			for k, v := range td {
 				cp[len(pp)] = Child(k)
-				locs = locateContinueFrag(locs, cp, v, rest, max)
+				locs = locateContinueFrag(locs, cp, v, rest, max, root)
 				if 0 < max && max <= len(locs) {
 					break
 				}
@@ -222,7 +222,7 @@ func (f Wildcard) locate(pp Expr, data any, rest Expr, max int) (locs []Expr) {
 			cp := append(pp, nil) // place holder
 			for i, v := range td {
 				cp[len(pp)] = Nth(i)
-				locs = locateContinueFrag(locs, cp, v, rest, max)
+				locs = locateContinueFrag(locs, cp, v, rest, max, root)
 				if 0 < max && max <= len(locs) {
 					break
 				}
@@ -242,7 +242,7 @@ func (f Wildcard) locate(pp Expr, data any, rest Expr, max int) (locs []Expr) {
 			for _, k := range keys {
 				v, _ := td.ValueForKey(k)
 				cp[len(pp)] = Child(k)
-				locs = locateContinueFrag(locs, cp, v, rest, max)
+				locs = locateContinueFrag(locs, cp, v, rest, max, root)
 				if 0 < max && max <= len(locs) {
 					break
 				}
@@ -262,7 +262,7 @@ func (f Wildcard) locate(pp Expr, data any, rest Expr, max int) (locs []Expr) {
 			for i := 0; i < size; i++ {
 				v := td.ValueAtIndex(i)
 				cp[len(pp)] = Nth(i)
-				locs = locateContinueFrag(locs, cp, v, rest, max)
+				locs = locateContinueFrag(locs, cp, v, rest, max, root)
 				if 0 < max && max <= len(locs) {
 					break
 				}
@@ -308,7 +308,7 @@ func (f Wildcard) locate(pp Expr, data any, rest Expr, max int) (locs []Expr) {
 					rv := rd.Field(i)
 					if rv.CanInterface() {
 						cp[len(pp)] = Child(rt.Field(i).Name)
-						locs = locateContinueFrag(locs, cp, rv.Interface(), rest, max)
+						locs = locateContinueFrag(locs, cp, rv.Interface(), rest, max, root)
 						if 0 < max && max <= len(locs) {
 							break
 						}
@@ -319,7 +319,7 @@ func (f Wildcard) locate(pp Expr, data any, rest Expr, max int) (locs []Expr) {
 					rv := rd.Index(i)
 					if rv.CanInterface() {
 						cp[len(pp)] = Nth(i)
-						locs = locateContinueFrag(locs, cp, rv.Interface(), rest, max)
+						locs = locateContinueFrag(locs, cp, rv.Interface(), rest, max, root)
 						if 0 < max && max <= len(locs) {
 							break
 						}
